@@ -28,7 +28,7 @@ EXPLANATION = (
     "parameterised types, anything depending on what pandas/numpy/pyarrow objects print."
 )
 LEVEL_RULE = "one obligation per registry row / key / family member / duplicate pair found in the current tree"
-FLOORS = {"R1": 150, "R2": 60, "R3": 5, "R4": 100, "R5": 6, "R6": 20, "R7": 20, "R8": 3, "R9": 8, "R10": 1, "R11": 1, "R12": 1}
+FLOORS = {"R1": 150, "R2": 60, "R3": 5, "R4": 100, "R5": 6, "R6": 20, "R7": 20, "R8": 3, "R9": 8, "R10": 1, "R11": 1, "R12": 1, "R13": 2}
 
 ENGINE_FILES = [
     "pandera/engines/numpy_engine.py", "pandera/engines/pandas_engine.py", "pandera/engines/pyarrow_engine.py",
@@ -690,6 +690,39 @@ def _norm_stmt(m, s):
     return ast.unparse(s)
 
 
+OBJECT_ONLY_LABELS = {"mixed-integer", "mixed"}   # pandas.api.types.infer_dtype labels of columns that also hold non-numbers
+
+
+def r13_infer_dtype_labels(ctx):
+    """`pandas.api.types.infer_dtype` labels are registered as dtype equivalents so that schema inference can resolve them.
+    'mixed-integer' / 'mixed' describe object columns that hold ints *and* other things ([12, '14a', 7]): they resolve to
+    the object dtype and to nothing numeric - registered for int64, infer_schema either raises or infers a schema that its
+    own data fails."""
+    m = ctx.ix.module("pandera/engines/pandas_engine.py")
+    seen = {}
+    for node in ast.walk(m.tree):
+        if isinstance(node, ast.Constant) and node.value in OBJECT_ONLY_LABELS:
+            p_ = getattr(node, "_parent", None)
+            where = None
+            while p_ is not None:
+                if isinstance(p_, ast.Call) and callee_last(p_) == "register_dtype":
+                    where = ("register", txt(p_.args[0]) if p_.args else "?")
+                    break
+                if isinstance(p_, (ast.FunctionDef, ast.AsyncFunctionDef)):
+                    where = ("function", p_.name)
+                    break
+                p_ = getattr(p_, "_parent", None)
+            seen.setdefault(node.value, []).append((where, node))
+    for label in sorted(OBJECT_ONLY_LABELS):
+        sites = seen.get(label, [])
+        bad = [(w, n) for w, n in sites if not (w and w[0] == "register" and "Object" in w[1])]
+        ok = bool(sites) and not bad
+        ctx.ob("R13", f"{m.path}", f"infer_dtype label {label!r} is an equivalent of the object dtype only", ok,
+               "registered with numpy_engine.Object" if ok else
+               (f"{label!r} is registered in {bad[0][0]}: an object column mixing ints with other values resolves to a numeric dtype" if bad else
+                f"{label!r} is not registered: schema inference cannot resolve such a column"), f"{m.path}:{(bad[0][1].lineno if bad else 1)}")
+
+
 def run(ctx):
     rows = registered_classes(ctx.ix)
     ctx.stats["registered_rows"] = len(rows)
@@ -709,6 +742,7 @@ def run(ctx):
     r10_no_name_reparse(ctx)
     r11_own_hook_only(ctx)
     r12_canonical_fields(ctx)
+    r13_infer_dtype_labels(ctx)
     ctx.assume("equivalence keys are compared by normalised source text with import aliases expanded; keys that are "
                "equal only at run time (e.g. two spellings of one numpy dtype object) are not detected")
     ctx.assume("generated rows (_build_number_equivalents, _register_numpy_numbers, runtime pyarrow/pyspark objects) "
